@@ -132,6 +132,7 @@ struct Scene {
 	nested: Option<TrackHandle>,
 	clock: Option<ClockHandle>,
 	tweener: Option<TweenerHandle>,
+	stats: Option<Arc<DecStats>>,
 	last_idx: i64,
 }
 
@@ -185,10 +186,11 @@ fn track_state_name(s: TrackPlaybackState) -> &'static str {
 
 fn run_handles(sc: &J, t: &mut Tracer) {
 	let scene = sc["scene"].as_str().unwrap();
+	kira::verif::set_stream_ring_capacity(0);
 	let mut sim = Sim::basic();
 	let mut init = Map::new();
 	let mut jump = Map::new();
-	let mut s = Scene { sim: Sim::basic(), s1: None, s2: None, t: None, nested: None, clock: None, tweener: None, last_idx: -1 };
+	let mut s = Scene { sim: Sim::basic(), s1: None, s2: None, t: None, nested: None, clock: None, tweener: None, stats: None, last_idx: -1 };
 	std::mem::swap(&mut s.sim, &mut sim);
 	drop(sim);
 	let level = |init: &mut Map<String, J>, jump: &mut Map<String, J>, k: &str, v: J| {
@@ -253,6 +255,23 @@ fn run_handles(sc: &J, t: &mut Tracer) {
 				level(&mut init, &mut jump, k, json!("Playing"));
 			}
 		}
+		"T" => {
+			// a streaming sound with a small frame ring: a seek is heard once the frames buffered before it have played
+			let ring = sc["ring"].as_u64().unwrap_or(48) as usize;
+			let len = sc["len"].as_u64().unwrap_or(4000) as usize;
+			kira::verif::set_stream_ring_capacity(ring);
+			let (dec, stats) = ScriptDecoder::new(len, vec![3, 1, 2], 0, 0);
+			DEC_WAITS.store(0, Ordering::SeqCst);
+			let h = s.sim.manager.play(StreamingSoundData::from_decoder(dec.with_eos(1))).unwrap();
+			let t0 = std::time::Instant::now();
+			while DEC_WAITS.load(Ordering::SeqCst) < 1 && !stats.dropped.load(Ordering::SeqCst) && t0.elapsed() < Duration::from_secs(5) {
+				std::thread::sleep(Duration::from_micros(200));
+			}
+			s.s2 = Some(h);
+			s.stats = Some(stats);
+			init.insert("st.seek".into(), json!(0));
+			jump.insert("st.seek".into(), json!("stream"));
+		}
 		"S" => {
 			let data = StaticSoundData {
 				sample_rate: RATE,
@@ -286,7 +305,7 @@ fn run_handles(sc: &J, t: &mut Tracer) {
 		}
 		x => panic!("unknown scene {x}"),
 	}
-	t.reset(json!({"mode": "handles", "scene": scene, "init": init, "src": sc["src"]}));
+	t.reset(json!({"mode": "handles", "scene": scene, "init": init, "ring": sc["ring"].as_u64().unwrap_or(0), "src": sc["src"]}));
 	for step in sc["steps"].as_array().unwrap() {
 		match step["act"].as_str().unwrap() {
 			"W" => {
@@ -337,6 +356,7 @@ fn run_handles(sc: &J, t: &mut Tracer) {
 						let x = if v.as_i64() == Some(0) { 1.0 } else { 0.0 };
 						s.tweener.as_mut().unwrap().set(x, tw(0))
 					}
+					"st.seek" => s.s2.as_mut().unwrap().seek_to(v["x"].as_f64().unwrap() / RATE as f64),
 					"m.dset" => {
 						// {x: the volume it maps to, dl: start delay in callbacks}
 						let x = if v["x"].as_i64() == Some(0) { 1.0 } else { 0.0 };
@@ -377,6 +397,20 @@ fn run_handles(sc: &J, t: &mut Tracer) {
 						obs.insert("ps.run".into(), json!(guarded(|| state_name(s.s1.as_ref().unwrap().state())).unwrap_or("panic")));
 						obs.insert("pn.run".into(), json!(guarded(|| track_state_name(s.nested.as_ref().unwrap().state())).unwrap_or("panic")));
 					}
+					"T" => {
+						let hd = hear(&res.out);
+						let last = *hd.idx.last().unwrap();
+						obs.insert("st.seek".into(), json!(last));
+						cont.insert("st.seek".into(), json!(s.last_idx + NF as i64));
+						s.last_idx = last;
+						// the decoder refills the small ring before the next callback (it reports the ring full again, or ends)
+						let st = s.stats.as_ref().unwrap();
+						let w = DEC_WAITS.load(Ordering::SeqCst);
+						let t1 = std::time::Instant::now();
+						while DEC_WAITS.load(Ordering::SeqCst) <= w + 1 && !st.dropped.load(Ordering::SeqCst) && t1.elapsed() < Duration::from_secs(3) {
+							std::thread::sleep(Duration::from_micros(100));
+						}
+					}
 					"S" => {
 						let hd = hear(&res.out);
 						let last = *hd.idx.last().unwrap();
@@ -405,6 +439,7 @@ fn run_handles(sc: &J, t: &mut Tracer) {
 fn main() {
 	let args: Vec<String> = std::env::args().collect();
 	quiet_panics();
+	install_hook();
 	let inp = arg(&args, "--in").expect("--in");
 	let out = arg(&args, "--out").expect("--out");
 	let mut t = Tracer::create(&out);
